@@ -195,6 +195,7 @@ type c20Exec struct {
 	spendHex   string
 	spendID    string
 	wa         c20Adapter
+	waOld      c20Adapter // the watcher of the previous process life (drain with restart)
 	regd       bool
 	reports    []c20Report
 	viols      []mc.Violation
@@ -528,17 +529,22 @@ func c20NewExec(f *c20Fam) *c20Exec {
 		x.S = x.c.Tip() + 1
 		x.c.Mine(1, false)
 	}
-	switch f.Watcher {
-	case "rpc":
-		x.wa = &c20RPC{x: x}
-	case "electrum":
-		x.wa = &c20El{x: x}
-	case "lnd":
-		x.wa = &c20Lnd{x: x}
-	}
+	x.wa = x.newAdapter()
 	x.wa.start()
 	x.lastRead = x.truth()
 	return x
+}
+
+func (x *c20Exec) newAdapter() c20Adapter {
+	switch x.f.Watcher {
+	case "rpc":
+		return &c20RPC{x: x}
+	case "electrum":
+		return &c20El{x: x}
+	case "lnd":
+		return &c20Lnd{x: x}
+	}
+	return nil
 }
 
 func (x *c20Exec) finish() {
@@ -548,6 +554,9 @@ func (x *c20Exec) finish() {
 	x.stalePrev = false
 	x.races = nil
 	x.wa.stop()
+	if x.waOld != nil {
+		x.waOld.stop()
+	}
 	synctest.Wait()
 	vsync.Abort()
 	synctest.Wait()
@@ -584,6 +593,22 @@ func (x *c20Exec) drainCsv() {
 			how = ":registration_failed_silently"
 		}
 		x.add("csv_maturity_never_reported_after_services_recovered"+how, fmt.Sprintf("family %s: CSV registration open, output unspent and %d deep (csv %d), all services healthy for the last %d blocks: no maturity report", x.f.Name, t.depth(), x.CSV, 3))
+		if os.Getenv("VERIF_C20_DRAIN") == "restart" {
+			// C16 grants restarts "from time to time": the daemon is restarted (a new watcher object in a new process
+			// life, services healthy), recovery registers the watch again and the chain goes on growing
+			x.waOld = x.wa
+			x.wa = x.newAdapter()
+			x.wa.start()
+			x.wa.reg(x.f.Kind)
+			synctest.Wait()
+			for i := 0; i < 3 && len(x.reports) == 0; i++ {
+				x.apply(mc.Event{Name: "block", Arg: "empty"})
+				x.apply(mc.Event{Name: "wait"})
+			}
+			if len(x.reports) == 0 {
+				x.add("csv_maturity_never_reported_even_after_restart", fmt.Sprintf("family %s: after the history, healthy services, a restart of the daemon (new watcher, watch registered again) and 3 more blocks: still no maturity report", x.f.Name))
+			}
+		}
 	}
 }
 
